@@ -1,6 +1,7 @@
 (* C06 -- declared type bound to the role by signed content alone; stripping. Property theorems only. *)
 From CCT Require Import Prelude Hex Num Time Formats Json Auth.
-From CCT.proofs Require Import HexFacts SigFacts AuthFacts SignableFacts DelegationFacts.
+From CCT.Gen Require Pins.
+From CCT.proofs Require Import HexFacts SigFacts AuthFacts SignableFacts DelegationFacts RootFacts SchemaFacts StripFacts.
 Open Scope N_scope.
 
 (* for EVERY signature map sm: if the signed portion alone is well-formed delegating metadata of another type, refuse *)
@@ -35,8 +36,69 @@ Theorem C06_acceptance_depends_on_counting_only : forall ed_verify sha256 sm sm'
    <-> verify_signable ed_verify sha256 (mk_env sm' sd) (VList kl) t gpg = Ok tt).
 Proof. exact acceptance_depends_on_counting_only. Qed.
 
+(* the third verifier: an accepted root offer stays accepted when its signature map keeps only the entries that count for the
+   trusted root's rule or for the offered root's own rule (the format check of the offered envelope included) *)
+Theorem C06_strip_preserves_root : forall ed_verify sha256 t sm sd data tv uv klo kln,
+  canonserialize sd = Ok data -> NoDup sm ->
+  view t = Ok tv -> rv_keys tv = VList klo -> view (mk_env sm sd) = Ok uv -> rv_keys uv = VList kln ->
+  verify_root ed_verify sha256 t (mk_env sm sd) = Ok tt ->
+  verify_root ed_verify sha256 t (mk_env (strip_root ed_verify sha256 klo kln data sm) sd) = Ok tt.
+Proof. exact strip_preserves_root. Qed.
+
+(* nothing added to the unsigned map, short of an entry that counts, turns a rejected root offer into an accepted one *)
+Theorem C06_junk_never_helps_root : forall ed_verify sha256 t sm extra sd data tv uv klo kln,
+  canonserialize sd = Ok data -> NoDup (sm ++ extra) ->
+  view t = Ok tv -> rv_keys tv = VList klo -> view (mk_env sm sd) = Ok uv -> rv_keys uv = VList kln ->
+  Forall (fun kv => counts (entry_counts ed_verify sha256 true klo data) kv = false
+                    /\ counts (entry_counts ed_verify sha256 true kln data) kv = false) extra ->
+  verify_root ed_verify sha256 t (mk_env (sm ++ extra) sd) = Ok tt -> verify_root ed_verify sha256 t (mk_env sm sd) = Ok tt.
+Proof. exact junk_never_helps_root. Qed.
+
+(* BEGIN SOURCE PINS -- written by harness/mkpins.py; the list is what Gen/Pins.v held for the tree the model was validated against *)
+(* the functions of the package this property depends on (call-graph closure of its entry points), each with the fingerprint of its
+   logic (AST without docstrings, annotations, messages, local names): the model and the correspondence runs were validated against
+   exactly these; a change of logic in any of them breaks this obligation and the check then searches for a failing input *)
+Theorem C06_source_pinned : CCT.Gen.Pins.pinned_C06 =
+  [(U"authentication._ascii", U"5f6fc6aad21f14d47c4f");
+   (U"authentication.verify_delegation", U"5dc5b9065823f0f50085");
+   (U"authentication.verify_gpg_signature", U"ccbe2bc800d02410d16b");
+   (U"authentication.verify_root", U"6692242951185dc7604b");
+   (U"authentication.verify_signable", U"1bd56f9b4f5e7bcd88d9");
+   (U"authentication.verify_signature", U"7e0a2d567df7e9f0cdd4");
+   (U"common.MixinKey.from_hex", U"a6e4e81c0b16461490a5");
+   (U"common.PrivateKey.from_bytes", U"2cb488fc935b61f65bba");
+   (U"common.PublicKey.from_bytes", U"a439db0d070397bc2b47");
+   (U"common.canonserialize", U"64fc1dee1d7349d7a920");
+   (U"common.checkformat_any_signature", U"82ba0ed515a770fad8a9");
+   (U"common.checkformat_byteslike", U"1c9da61d15ff3a1a9f97");
+   (U"common.checkformat_delegating_metadata", U"b013c9fa5677f3b3f637");
+   (U"common.checkformat_delegation", U"25fc9c6692b07cdca131");
+   (U"common.checkformat_delegations", U"d6a7d445f5f827a1471c");
+   (U"common.checkformat_gpg_fingerprint", U"86e3bb7e4431fb481dc5");
+   (U"common.checkformat_gpg_signature", U"a3c5515ffb8c9f6183ba");
+   (U"common.checkformat_hex_key", U"625afdf8f56eb4c97143");
+   (U"common.checkformat_hex_string", U"eac17f8be3d488d4b8a0");
+   (U"common.checkformat_key", U"d3466826154e389f099e");
+   (U"common.checkformat_list_of_hex_keys", U"4c9121b74cf062a7e2fd");
+   (U"common.checkformat_natural_int", U"14f9984b8b7ef6014787");
+   (U"common.checkformat_signable", U"dbb8b00a3a3727e018da");
+   (U"common.checkformat_signature", U"d544854022da28dcc399");
+   (U"common.checkformat_string", U"a139d0a4113d71e93d9f");
+   (U"common.checkformat_utc_isoformat", U"6fed4a2332e7258f7147");
+   (U"common.is_gpg_signature", U"f236e9c50126a7909e84");
+   (U"common.is_hex_key", U"63c7822022cd24f926e2");
+   (U"common.is_hex_signature", U"433f44075f931ec629d6");
+   (U"common.is_hex_string", U"35e6d253e0c21ac09fca");
+   (U"common.is_signable", U"6932517519189d75eb93");
+   (U"common.is_signature", U"cc04b1fcfd687d0beea7")].
+Proof. reflexivity. Qed.
+(* END SOURCE PINS *)
+
 Print Assumptions C06_type_mismatch_never_accepted.
 Print Assumptions C06_type_check_ignores_signatures.
 Print Assumptions C06_strip_preserves_signable.
 Print Assumptions C06_strip_preserves_delegation.
 Print Assumptions C06_acceptance_depends_on_counting_only.
+Print Assumptions C06_strip_preserves_root.
+Print Assumptions C06_junk_never_helps_root.
+Print Assumptions C06_source_pinned.
